@@ -381,13 +381,46 @@ def r4_replay_existing(repo=None):
     sched = [c for lp in ast.walk(io) if isinstance(lp, ast.For) and norm(ast.unparse(lp.iter)) == "self.event_handlers"
              for c in ast.walk(lp) if isinstance(c, ast.Call) and isinstance(c.func, ast.Attribute) and c.func.attr == "schedule"
              and c.args and isinstance(c.args[0], ast.Name) and isinstance(lp.target, ast.Name) and c.args[0].id == lp.target.id]
-    if sched and pyfront.const(pyfront.kwarg(sched[0], "recursive")) is True and len(sched[0].args) >= 2 and norm(ast.unparse(sched[0].args[1])) == "self.src":
-        r.ok("%s %s.%s" % (m.rel, MI, io.name), "every handler is scheduled recursively on the source tree")
-    elif not sched:
-        raise AnalysisError("%s.%s: scheduling loop over self.event_handlers not recognised" % (MI, io.name))
+    # the handlers of one mirror must see an event in list order (copy handler first, the metadata ringbuffer of move mode last):
+    # an observer keeps the handlers of a watch in a *set*, so handlers scheduled one by one are run in an order fixed by object
+    # addresses; the ringbuffer (count=1) then deletes an older metadata file from the source before the copy handler ever saw it
+    if sched:
+        r.violation(m.rel, MI + "." + io.name, "for handler in self.event_handlers: self.observer.schedule(handler, ...)",
+                    "the handlers of the mirror are scheduled separately: the observer keeps them in a set and runs them in an "
+                    "arbitrary order per process; when the count=1 metadata ringbuffer of move mode sees `created(A)` for a file "
+                    "older than one it already tracks before the copy handler does, it deletes A from the source before A was "
+                    "copied - the file ends up in neither tree", line=sched[0].lineno)
     else:
-        r.violation(m.rel, MI + "." + io.name, norm(ast.unparse(sched[0])), "a handler is not attached recursively to the source tree",
-                    line=sched[0].lineno)
+        one = [c for c in ast.walk(io) if isinstance(c, ast.Call) and isinstance(c.func, ast.Attribute) and c.func.attr == "schedule"]
+        comp = None
+        if len(one) == 1 and one[0].args and isinstance(one[0].args[0], ast.Call) and one[0].args[0].args \
+                and norm(ast.unparse(one[0].args[0].args[0])) == "self.event_handlers":
+            comp = m.classes.get(pyfront.call_name(one[0].args[0]))
+        if comp is None:
+            raise AnalysisError("%s.%s: neither a scheduling loop over self.event_handlers nor one composite handler built from that "
+                                "list was recognised" % (MI, io.name))
+        disp = [x for x in comp.body if isinstance(x, ast.FunctionDef) and x.name == "dispatch"]
+        init = [x for x in comp.body if isinstance(x, ast.FunctionDef) and x.name == "__init__"]
+        ordered = False
+        if len(disp) == 1 and len(init) == 1 and len(init[0].args.args) == 2:
+            hp = init[0].args.args[1].arg
+            attrs = [a.targets[0].attr for a in ast.walk(init[0]) if isinstance(a, ast.Assign) and isinstance(a.targets[0], ast.Attribute)
+                     and isinstance(a.value, ast.Name) and a.value.id == hp]
+            loops = [lp for lp in disp[0].body if isinstance(lp, ast.For) and isinstance(lp.iter, ast.Attribute) and lp.iter.attr in attrs
+                     and isinstance(lp.target, ast.Name)]
+            if len(loops) == 1 and not any(isinstance(y, (ast.Break, ast.Continue, ast.Return)) for y in ast.walk(loops[0])):
+                calls_ = [c for c in ast.walk(loops[0]) if isinstance(c, ast.Call) and isinstance(c.func, ast.Attribute) and c.func.attr == "dispatch"
+                          and isinstance(c.func.value, ast.Name) and c.func.value.id == loops[0].target.id]
+                ordered = len(calls_) == 1
+        rec_ok = pyfront.const(pyfront.kwarg(one[0], "recursive")) is True and len(one[0].args) >= 2 and norm(ast.unparse(one[0].args[1])) == "self.src"
+        if ordered and rec_ok:
+            r.ok("%s:%s %s.%s" % (m.rel, one[0].lineno, MI, io.name), "one composite handler (%s) is scheduled recursively on the source tree; it "
+                 "dispatches every event to self.event_handlers in list order" % comp.name)
+        elif not rec_ok:
+            r.violation(m.rel, MI + "." + io.name, norm(ast.unparse(one[0]))[:80], "the handler is not attached recursively to the source tree",
+                        line=one[0].lineno)
+        else:
+            raise AnalysisError("%s: the composite handler's dispatch is not a plain loop over the handler list" % comp.name)
     r.guard(3)
     return r
 
@@ -422,6 +455,30 @@ def r5_identical_content(repo=None):
                             "the destination with the new time and every later `modified` event is skipped", line=c.lineno)
         else:
             raise AnalysisError("%s: comparison `%s` not recognised" % (q, norm(ast.unparse(c))[:60]))
+    # (a') in link mode the destination IS the source (two names of one inode): comparing contents reads the same inode twice, and a
+    # write by the recorder between the two reads makes them differ; the mirror then links the file again under the staging name
+    # and renames it onto the final name - a no-op for two links of one inode, so tmp.<name> stays for ever.  When a mirror
+    # function can create hard links, every content comparison is the right operand of `os.path.samefile(src, dest) or ...`
+    can_link = any(isinstance(x, ast.Attribute) and norm(ast.unparse(x)) == "os.link" for x in ast.walk(m.tree))
+    if can_link:
+        fparents = {}
+        for n_ in ast.walk(f):
+            for ch_ in ast.iter_child_nodes(n_):
+                fparents[ch_] = n_
+        for c in cmps:
+            p_ = fparents.get(c)
+            same_first = isinstance(p_, ast.BoolOp) and isinstance(p_.op, ast.Or) and any(
+                isinstance(v, ast.Call) and pyfront.call_name(v) == "os.path.samefile"
+                and [norm(ast.unparse(a)) for a in v.args] == [norm(ast.unparse(a)) for a in c.args[:2]]
+                for v in p_.values[:p_.values.index(c)])
+            site = "%s:%s %s `%s`" % (m.rel, c.lineno, q, norm(ast.unparse(p_ if same_first else c))[:90])
+            if same_first:
+                r.ok(site, "a destination that is the same file as the source (hard link) counts as mirrored before contents are compared")
+            else:
+                r.violation(m.rel, q, "%s without os.path.samefile" % norm(ast.unparse(c))[:60], "in link mode source and destination are "
+                            "two names of one inode: the content comparison reads it twice, a write by the recorder in between makes "
+                            "the reads differ, the file is linked again under the staging name and renamed onto the final name, "
+                            "which is a no-op for two links of one inode - tmp.<name> stays in the destination for ever", line=c.lineno)
     # (b) callable classes used as mirror functions
     n_cls = 0
     for cname, cnode in m.classes.items():
